@@ -1141,6 +1141,104 @@ fn tenant_map_removed() -> bool {
     !a_sees_before && verdict
 }
 
+// F-C01-c  (C01, periodic-fsync clause)  under the DEFAULT policy (data_only = periodic fsync, 100 ms) the WAL writer only syncs when an APPEND finds the
+//                 interval elapsed, and nothing else ever syncs it (HnswBackend::sync_wal, "for periodic fsync policy", has no caller): the frames
+//                 written since the last such append stay in the page cache for as long as the server is idle.  Witness: system-call trace of the
+//                 real server (strace): after the last write(2) to the WAL segment no fsync/fdatasync of that descriptor follows within 15 intervals.
+fn periodic_fsync_never_catches_up() -> bool {
+    use kyrodb_engine::proto::kyro_db_service_client::KyroDbServiceClient;
+    use kyrodb_engine::proto::InsertRequest;
+    use std::time::{Duration, Instant};
+    if std::process::Command::new("strace").arg("-V").output().is_err() { println!("  strace not available: nothing to decide"); return false; }
+    let bin = c10_server_binary();
+    let tmp = tempfile::tempdir().unwrap();
+    let data_dir = tmp.path().join("data");
+    std::fs::create_dir_all(&data_dir).unwrap();
+    let trace = tmp.path().join("trace.txt");
+    let (port, http_port) = (c10_port(), c10_port());
+    let log = std::fs::File::create(tmp.path().join("server.log")).unwrap();
+    let child = std::process::Command::new("strace")
+        .args(["-f", "-ttt", "-e", "trace=openat,write,pwrite64,writev,fsync,fdatasync", "-o"]).arg(&trace)
+        .arg(&bin)
+        .env("KYRODB_DATA_DIR", &data_dir)
+        .env("KYRODB_PORT", port.to_string())
+        .env("KYRODB__SERVER__HTTP_PORT", http_port.to_string())
+        .env("KYRODB__PERSISTENCE__FSYNC_POLICY", "data_only")
+        .env("KYRODB__PERSISTENCE__WAL_FLUSH_INTERVAL_MS", "100")
+        .env("KYRODB__HNSW__DIMENSION", "8")
+        .env("KYRODB__HNSW__MAX_ELEMENTS", "1000")
+        .stdout(std::process::Stdio::null())
+        .stderr(log)
+        .spawn()
+        .unwrap_or_else(|e| panic!("cannot spawn strace: {e}"));
+    let mut server = KillOnDrop(child);
+    let rt = tokio::runtime::Builder::new_multi_thread().worker_threads(2).enable_all().build().unwrap();
+    let endpoint = format!("http://127.0.0.1:{port}");
+    rt.block_on(async {
+        let deadline = Instant::now() + Duration::from_secs(90);
+        let mut client = loop {
+            match KyroDbServiceClient::connect(endpoint.clone()).await {
+                Ok(c) => break c,
+                Err(e) => {
+                    if let Ok(Some(st)) = server.0.try_wait() { panic!("server exited early: {st}"); }
+                    assert!(Instant::now() < deadline, "server did not come up: {e}");
+                    tokio::time::sleep(Duration::from_millis(100)).await;
+                }
+            }
+        };
+        tokio::time::sleep(Duration::from_millis(300)).await;
+        // three acknowledged inserts back to back (well inside one 100 ms interval), then the client goes quiet
+        for i in 1..=3u64 {
+            let r = client.insert(tonic::Request::new(InsertRequest { doc_id: i, embedding: c10_vec(i as f32, 1.0), metadata: HashMap::new(), namespace: String::new() })).await.expect("insert rpc");
+            assert!(r.get_ref().success, "insert failed: {}", r.get_ref().error);
+        }
+        tokio::time::sleep(Duration::from_millis(1500)).await;   // 15 flush intervals of idleness
+    });
+    drop(rt);
+    unsafe { libc::kill(server.0.id() as i32, libc::SIGTERM); }   // strace flushes its output file and detaches
+    let t0 = Instant::now();
+    while server.0.try_wait().ok().flatten().is_none() && t0.elapsed() < Duration::from_secs(10) { std::thread::sleep(Duration::from_millis(50)); }
+    // the server process itself may survive the death of strace for a moment: kill whatever still holds the port's data dir is not needed, the trace is complete up to here
+    let text = std::fs::read_to_string(&trace).unwrap_or_default();
+    // find the descriptor of the WAL segment, then the last write to it and the syncs after that write
+    let mut wal_fd: Option<String> = None;
+    let mut pending_open: Option<String> = None;
+    let (mut last_write, mut syncs_after, mut writes) = (None::<String>, 0usize, 0usize);
+    for line in text.lines() {
+        if line.contains("openat(") && line.contains("wal_") && line.contains(".wal") && !line.contains("ENOENT") {
+            if line.contains("<unfinished") { pending_open = line.split_whitespace().next().map(|p| p.to_string()); }
+            else if let Some(fd) = line.rsplit("= ").next() { if fd.trim().parse::<u32>().is_ok() { wal_fd = Some(fd.trim().to_string()); } }
+            continue;
+        }
+        if let Some(pid) = &pending_open {
+            if line.starts_with(pid.as_str()) && line.contains("openat resumed") {
+                if let Some(fd) = line.rsplit("= ").next() { if fd.trim().parse::<u32>().is_ok() { wal_fd = Some(fd.trim().to_string()); } }
+                pending_open = None;
+                continue;
+            }
+        }
+        let Some(fd) = &wal_fd else { continue };
+        let is = |call: &str| line.contains(&format!(" {call}({fd},")) || line.contains(&format!(" {call}({fd})"));
+        if is("write") || is("pwrite64") || is("writev") {
+            writes += 1;
+            last_write = Some(line.split_whitespace().nth(1).unwrap_or("?").to_string());
+            syncs_after = 0;
+        } else if is("fsync") || is("fdatasync") {
+            syncs_after += 1;
+        }
+    }
+    // the traced server outlives strace: its pid is the first column of the trace
+    if let Some(pid) = text.lines().next().and_then(|l| l.split_whitespace().next()).and_then(|p| p.parse::<i32>().ok()) { unsafe { libc::kill(pid, libc::SIGKILL); } }
+    if std::env::var("VERIF_REPLAY_DEBUG").is_ok() { eprintln!("trace: {} lines; wal lines: {:?}", text.lines().count(), text.lines().filter(|l| l.contains(".wal")).take(3).collect::<Vec<_>>()); }
+    match (wal_fd, last_write) {
+        (Some(fd), Some(t)) => {
+            println!("  WAL descriptor {fd}: {writes} write call(s), the last at t={t}; fsync/fdatasync calls on it AFTER that write, during 1.5 s (15 intervals) of idleness: {syncs_after}");
+            writes >= 1 && syncs_after == 0
+        }
+        _ => { println!("  could not find the WAL segment in the trace: nothing to decide"); false }
+    }
+}
+
 fn main() {
     let which = std::env::args().nth(1).unwrap_or_else(|| "all".to_string());
     if which == "F-C01-a-child" {
@@ -1172,6 +1270,7 @@ fn main() {
         ("F-C13-d", Box::new(manifest_removed_server_starts_empty)),
         ("F-C19-a", Box::new(admin_rpcs_not_rate_limited)),
         ("F-C13-f", Box::new(tenant_map_digit_flip)),
+        ("F-C01-c", Box::new(periodic_fsync_never_catches_up)),
         ("F-C13-g", Box::new(tenant_map_removed)),
         ("F-C13-e", Box::new(length_flip_reads_as_torn_tail)),
         ("F-C13-c.snapshot", Box::new(|| manifest_key_flip("latest_snapshot"))),
